@@ -1320,7 +1320,13 @@ def observe(R, X, oX, what, label):
             ctx.note(f"observer-raised:hash:{r.type}")
     else:                                   # == against a freshly built equal factor in another axis order
         order = list(reversed(vs))
-        R.eq(X, R.mk(oX, order), oX, oX, f"{label}: == fresh copy with axes {order!r}")
+        vals = [abs(v) for v in oX.tab.values() if v == v and v != 0]
+        if ctx.backend.startswith("torch") and vals and (max(vals) > 1e30 or min(vals) < 1e-30):
+            # under torch every constructor input passes through float32 (see DESIGN 8.2): a fresh copy of a table
+            # that has grown beyond float32's range cannot be built faithfully, so the comparison is not decidable
+            ctx.note("observer-eq-skipped:torch-float32-range")
+        else:
+            R.eq(X, R.mk(oX, order), oX, oX, f"{label}: == fresh copy with axes {order!r}")
     R.drain_invariant(label)
     for name, obj, fb in before:
         fa = _fp(obj)
